@@ -411,7 +411,17 @@ func c02KnownNonNil(fn *ssa.Function, v ssa.Value, ret *ssa.Return) bool {
 	if _, isConst := v.(*ssa.Const); isConst {
 		return false
 	}
-	if _, nn, _ := NilTests(fn, Aliases(v)); len(nn) > 0 && MustPass(ret, newCut().Edges(nn...)) {
+	al := Aliases(v)
+	if rs := Roots(v); len(rs) == 1 && rs[0] != v {
+		// a load of the error variable: the value it holds, and that value's other loads
+		if ErrNilStatus(rs[0], 0) == NonNil {
+			return true
+		}
+		for a := range Aliases(rs[0]) {
+			al[a] = true
+		}
+	}
+	if _, nn, _ := NilTests(fn, al); len(nn) > 0 && MustPass(ret, newCut().Edges(nn...)) {
 		return true // returned on the non-nil side of its own test
 	}
 	if isCtxErr(v) {
@@ -2027,11 +2037,15 @@ type c02Env struct {
 	alias   map[ssa.Value]ssa.Value  // load of an error variable / phi -> the value it denotes on this path
 	holder  map[*ssa.Alloc]ssa.Value // current content of a tracked error variable (nil: unknown)
 	cellNil map[*ssa.Alloc]int8
+	boolOf  map[ssa.Value]int8 // 1 true, 2 false: booleans decided by the edges taken (`a && b` lowered to a phi)
 	user    c02Permit
 }
 
 func (e *c02Env) clone() *c02Env {
-	n := &c02Env{nilOf: map[ssa.Value]int8{}, alias: map[ssa.Value]ssa.Value{}, holder: map[*ssa.Alloc]ssa.Value{}, cellNil: map[*ssa.Alloc]int8{}, user: e.user}
+	n := &c02Env{nilOf: map[ssa.Value]int8{}, alias: map[ssa.Value]ssa.Value{}, holder: map[*ssa.Alloc]ssa.Value{}, cellNil: map[*ssa.Alloc]int8{}, boolOf: map[ssa.Value]int8{}, user: e.user}
+	for k, v := range e.boolOf {
+		n.boolOf[k] = v
+	}
 	for k, v := range e.nilOf {
 		n.nilOf[k] = v
 	}
@@ -2143,6 +2157,9 @@ func (ex *c02Explorer) key(b, pred *ssa.BasicBlock, env *c02Env) string {
 	for k, v := range env.cellNil {
 		parts = append(parts, fmt.Sprintf("c%d=%d", ex.id(k), v))
 	}
+	for k, v := range env.boolOf {
+		parts = append(parts, fmt.Sprintf("b%d=%d", ex.id(k), v))
+	}
 	sortStrings(parts)
 	pi := -1
 	if pred != nil {
@@ -2160,7 +2177,7 @@ func sortStrings(a []string) {
 }
 
 func (ex *c02Explorer) run(user c02Permit) {
-	env := &c02Env{nilOf: map[ssa.Value]int8{}, alias: map[ssa.Value]ssa.Value{}, holder: map[*ssa.Alloc]ssa.Value{}, cellNil: map[*ssa.Alloc]int8{}, user: user}
+	env := &c02Env{nilOf: map[ssa.Value]int8{}, alias: map[ssa.Value]ssa.Value{}, holder: map[*ssa.Alloc]ssa.Value{}, cellNil: map[*ssa.Alloc]int8{}, boolOf: map[ssa.Value]int8{}, user: user}
 	ex.walk(ex.fn.Blocks[0], nil, env)
 }
 
@@ -2168,6 +2185,7 @@ func (ex *c02Explorer) run(user c02Permit) {
 func (ex *c02Explorer) forget(v ssa.Value, env *c02Env) {
 	delete(env.nilOf, v)
 	delete(env.alias, v)
+	delete(env.boolOf, v)
 	for a, h := range env.holder {
 		if h == v {
 			env.holder[a] = nil
@@ -2207,6 +2225,44 @@ func (ex *c02Explorer) walk(b, pred *ssa.BasicBlock, env *c02Env) {
 			}
 		}
 	}
+	// boolean phis: the value selected by the edge taken
+	if pred != nil {
+		type bphi struct {
+			phi *ssa.Phi
+			v   int8
+		}
+		var bs []bphi
+		for _, in := range b.Instrs {
+			phi, ok := in.(*ssa.Phi)
+			if !ok {
+				break
+			}
+			if bt, isB := phi.Type().Underlying().(*types.Basic); !isB || bt.Kind() != types.Bool {
+				continue
+			}
+			for i, p := range b.Preds {
+				if p != pred {
+					continue
+				}
+				var v int8
+				if cst, isC := phi.Edges[i].(*ssa.Const); isC && cst.Value != nil {
+					v = 2
+					if cst.Value.String() == "true" {
+						v = 1
+					}
+				} else {
+					v = env.boolOf[phi.Edges[i]]
+				}
+				bs = append(bs, bphi{phi, v})
+			}
+		}
+		for _, x := range bs {
+			delete(env.boolOf, x.phi)
+			if x.v != 0 {
+				env.boolOf[x.phi] = x.v
+			}
+		}
+	}
 	for _, pv := range phis {
 		ex.forget(pv.phi, env)
 	}
@@ -2240,6 +2296,8 @@ func (ex *c02Explorer) walk(b, pred *ssa.BasicBlock, env *c02Env) {
 		}
 		if v, ok := in.(ssa.Value); ok && isErrorTypeOrTuple(v.Type()) {
 			ex.forget(v, env)
+		} else if ok {
+			delete(env.boolOf, v)
 		}
 		switch x := in.(type) {
 		case *ssa.Alloc:
@@ -2306,8 +2364,19 @@ func (ex *c02Explorer) walk(b, pred *ssa.BasicBlock, env *c02Env) {
 					return
 				}
 			}
-			take(t, nil, false, env.clone())
-			take(f, nil, false, env.clone())
+			if known := env.boolOf[cond]; known == 1 {
+				take(t, nil, false, env.clone())
+			} else if known == 2 {
+				take(f, nil, false, env.clone())
+			} else {
+				_, isPhi := cond.(*ssa.Phi)
+				te, fe := env.clone(), env.clone()
+				if !isPhi { // remember the outcome of a plain boolean for a later `&&` phi
+					te.boolOf[cond], fe.boolOf[cond] = 1, 2
+				}
+				take(t, nil, false, te)
+				take(f, nil, false, fe)
+			}
 			return
 		}
 	}
@@ -3144,5 +3213,323 @@ func c02TrackerStores(c *Ctx) {
 			c.Check(R2, FnName(f)+"|stores-open-channel:"+CalleeName(call), call.Pos(), bad == "",
 				ifelse(bad == "", "the completion signal stored for a node is a fresh, open channel", bad+": every waiter is released although the node was not copied"))
 		}
+	}
+}
+
+// ---------- a node is marked done only when it is present ----------
+
+// c02DonePresent (R1): in the traversal function (the one that claims its own
+// node with TryCommit) every nil-able return — which closes the node's done
+// channel and lets the parents push — lies behind one of: the node was not
+// claimed (`committed` false), the destination already has it (true edge of a
+// destination Exists check), or a call that pushes the node returned nil (its
+// error is returned directly, or its nil edge is taken).  An early `return nil`
+// for some class of nodes leaves the node absent while its parents are pushed.
+func c02DonePresent(c *Ctx, T0 *ssa.Function) {
+	const R = "C02.R1.done-implies-present"
+	tn := FnName(T0)
+	params := map[ssa.Value]bool{}
+	for _, p := range T0.Params {
+		for a := range Aliases(p) {
+			params[a] = true
+		}
+	}
+	var claim ssa.CallInstruction
+	for _, tc := range CallsTo(T0, nTryCommit) {
+		args := tc.Common().Args
+		if c02RootedIn(args[len(args)-1], params) {
+			claim = tc
+		}
+	}
+	if claim == nil {
+		c.LostAnchor(R, tn+": TryCommit of the task's own node")
+		return
+	}
+	ct := newCut()
+	if committed := ResultOf(claim, 1); committed != nil {
+		_, fe := BoolTests(T0, Aliases(committed))
+		ct.Edges(fe...)
+	}
+	isDispatch := map[ssa.Instruction]bool{}
+	for _, S := range c02DispatchedSlices(T0) {
+		for _, d := range c02DispatchCalls(T0, S, 0) {
+			isDispatch[d.(ssa.Instruction)] = true
+		}
+	}
+	okErr := map[ssa.Value]bool{}
+	nProof := 0
+	for _, call := range Calls(T0, func(string) bool { return true }) {
+		if _, isDefer := call.(*ssa.Defer); isDefer || call == claim {
+			continue
+		}
+		n := CalleeName(call)
+		cc := call.Common()
+		// destination existence check (not the metadata cache)
+		isExists := cc.IsInvoke() && strings.HasSuffix(n, ").Exists") && !isFieldLoad(cc.Value, "Cache")
+		if g, _ := c02CalleeOf(call); g != nil && !isExists {
+			if sig := g.Signature; sig.Results().Len() >= 1 {
+				if b, ok := sig.Results().At(0).Type().Underlying().(*types.Basic); ok && b.Kind() == types.Bool {
+					isExists = c02ReachesStatic(g, 2, func(in ssa.Instruction) bool {
+						ic, ok := in.(ssa.CallInstruction)
+						return ok && ic.Common().IsInvoke() && strings.HasSuffix(CalleeName(ic), ").Exists") && !isFieldLoad(ic.Common().Value, "Cache")
+					})
+				}
+			}
+		}
+		if isExists {
+			if r0 := ResultOf(call, 0); r0 != nil {
+				te, _ := BoolTests(T0, Aliases(r0))
+				ct.Edges(te...)
+			}
+			continue
+		}
+		if n == nGo || isDispatch[call.(ssa.Instruction)] || !c02IsPushCall(call) {
+			continue
+		}
+		if g, _ := c02CalleeOf(call); g != nil {
+			// a helper that only dispatches/waits is no proof that the node was pushed
+			ex := map[ssa.Instruction]bool{}
+			for _, S := range c02DispatchedSlices(g) {
+				for _, d := range c02DispatchCalls(g, S, 0) {
+					ex[d.(ssa.Instruction)] = true
+				}
+			}
+			if len(c02Pushes(g, ex)) == 0 {
+				continue
+			}
+		}
+		if e := ErrOf(call); e != nil {
+			ma := c02MustAliases(e)
+			ne, _, _ := NilTests(T0, ma)
+			ct.Edges(ne...)
+			for a := range ma {
+				okErr[a] = true
+			}
+			okErr[e] = true
+			nProof++
+		}
+	}
+	if nProof == 0 {
+		c.LostAnchor(R, tn+": no push effect whose error is observed")
+		return
+	}
+	ok := true
+	var at token.Pos = T0.Pos()
+	for _, a := range c02NilableAtoms(T0) {
+		if okErr[a.Val] || okErr[strip(a.Val)] {
+			continue
+		}
+		if AtomMustPass(a, ct) {
+			continue
+		}
+		if must, exceeded := c02MustPassPS(T0, a.Ret, ct, okErr); must && !exceeded {
+			continue
+		}
+		ok = false
+		at = a.Ret.Pos()
+	}
+	c.Check(R, tn+"|nil-return-implies-present", at, ok,
+		ifelse(ok, "every nil-error return of the traversal function lies behind `not claimed`, `already in the destination`, or the success of a call that pushes the node",
+			"the traversal function can return nil (closing the node's done channel, so its parents push) although the node was neither found in the destination nor pushed"))
+}
+
+// c02IsPushCall: isPushEffect, also for a call of a local closure variable or
+// method value (which isPushEffect's static resolution does not see).
+func c02IsPushCall(call ssa.CallInstruction) bool {
+	if isPushEffect(call) {
+		return true
+	}
+	if StaticCallee(call) != nil {
+		return false
+	}
+	if g, _ := c02CalleeOf(call); g != nil {
+		return reachesCall(g, 3, func(n string, _ ssa.CallInstruction) bool { return pushInvokes[n] })
+	}
+	return false
+}
+
+// ---------- the task's context reaches every dispatch and wait ----------
+
+type c02CtxAnalysis struct {
+	c    *Ctx
+	seen map[*ssa.Function]bool
+	n    int
+}
+
+func c02IsContextType(t types.Type) bool {
+	n, ok := t.(*types.Named)
+	return ok && n.Obj().Pkg() != nil && n.Obj().Pkg().Path() == "context" && n.Obj().Name() == "Context"
+}
+
+var c02CtxDerivers = map[string]bool{
+	"context.WithCancel": true, "context.WithCancelCause": true, "context.WithValue": true, "context.WithTimeout": true,
+	"context.WithDeadline": true, "context.WithoutCancel": false, "golang.org/x/sync/errgroup.WithContext": true,
+}
+
+// derives: 1 = v derives from the task context (ok set), 0 = from something
+// else (an outer context), -1 = cannot tell (struct field, ...).
+func (ca *c02CtxAnalysis) derives(v ssa.Value, ok map[ssa.Value]bool, depth int) int {
+	if depth > 5 {
+		return -1
+	}
+	res := 1
+	for _, r := range Roots(v) {
+		if ok[r] {
+			continue
+		}
+		switch u := r.(type) {
+		case *ssa.Extract:
+			if call, isCall := u.Tuple.(*ssa.Call); isCall && c02CtxDerivers[CalleeName(call)] {
+				for _, a := range call.Call.Args {
+					if c02IsContextType(a.Type()) {
+						if d := ca.derives(a, ok, depth+1); d < res {
+							res = d
+						}
+					}
+				}
+				continue
+			}
+			return -1
+		case *ssa.Call:
+			if c02CtxDerivers[CalleeName(u)] {
+				for _, a := range u.Call.Args {
+					if c02IsContextType(a.Type()) {
+						if d := ca.derives(a, ok, depth+1); d < res {
+							res = d
+						}
+					}
+				}
+				continue
+			}
+			return -1
+		case *ssa.Parameter:
+			return 0 // another parameter than the task context
+		case *ssa.UnOp:
+			if _, isFV := u.X.(*ssa.FreeVar); isFV {
+				return 0 // a context captured from an enclosing function
+			}
+			return -1
+		default:
+			return -1
+		}
+	}
+	return res
+}
+
+// run checks function f whose task context is the value set ok.
+func (ca *c02CtxAnalysis) run(f *ssa.Function, ok map[ssa.Value]bool, depth int) {
+	const R = "C02.R4.task-context"
+	if ca.seen[f] || depth > 4 {
+		return
+	}
+	ca.seen[f] = true
+	c := ca.c
+	fname := FnName(f)
+	verdict := func(key string, pos token.Pos, v ssa.Value, what string) {
+		ca.n++
+		switch ca.derives(v, ok, 0) {
+		case 1:
+			c.OK(R, key, pos, what+" uses the context the task received from syncutil.Go (cancelled when a sibling task fails)")
+		case 0:
+			c.Violation(R, key, pos, what+" uses a context that is not derived from the one the task received from syncutil.Go: a failure elsewhere in the graph does not cancel it, the copy hangs instead of returning the error")
+		default:
+			c.Undecided(R, key, pos, what+": cannot tell whether its context derives from the task's context")
+		}
+	}
+	AllInstrs(f, func(in ssa.Instruction) {
+		switch x := in.(type) {
+		case *ssa.Select:
+			if !x.Blocking {
+				return
+			}
+			for _, st := range x.States {
+				if call, isCall := st.Chan.(*ssa.Call); isCall && CalleeName(call) == "(context.Context).Done" {
+					verdict(fname+"|wait-context", x.Pos(), call.Call.Value, "the wait on a successor")
+				}
+			}
+		case ssa.CallInstruction:
+			if _, isDefer := x.(*ssa.Defer); isDefer {
+				return
+			}
+			cc := x.Common()
+			if CalleeName(x) == nGo {
+				if len(cc.Args) > 0 {
+					verdict(fname+"|dispatch-context", x.Pos(), cc.Args[0], "the dispatch of the successors")
+				}
+				return
+			}
+			g, off := c02CalleeOf(x)
+			if g == nil || g == f || !c02ReachesBlocking(g) {
+				return
+			}
+			passed := false
+			for i, a := range cc.Args {
+				prm := c02ArgParam(g, off, i)
+				if prm == nil || !c02IsContextType(a.Type()) {
+					continue
+				}
+				passed = true
+				if ca.derives(a, ok, 0) == 1 {
+					ca.run(g, Aliases(prm), depth+1)
+				} else {
+					verdict(fname+"|dispatch-context:"+CalleeName(x), x.Pos(), a, "the call of "+FnName(g)+" (which dispatches or waits)")
+				}
+			}
+			if !passed && g.Parent() == f {
+				// a local closure: the contexts it captured from f
+				okIn := map[ssa.Value]bool{}
+				for _, r := range Roots(cc.Value) {
+					mc, isMC := r.(*ssa.MakeClosure)
+					if !isMC || mc.Fn != g {
+						continue
+					}
+					for j, bnd := range mc.Bindings {
+						a, isAlloc := bnd.(*ssa.Alloc)
+						if !isAlloc || !c02IsContextType(a.Type().(*types.Pointer).Elem()) {
+							continue
+						}
+						all := len(storesTo(a)) > 0
+						for _, st := range storesTo(a) {
+							if ca.derives(st.Val, ok, 0) != 1 {
+								all = false
+							}
+						}
+						if all {
+							for _, ref := range *g.FreeVars[j].Referrers() {
+								if ld, isLd := ref.(*ssa.UnOp); isLd && ld.Op == token.MUL {
+									for al := range Aliases(ld) {
+										okIn[al] = true
+									}
+								}
+							}
+						}
+					}
+				}
+				ca.run(g, okIn, depth+1)
+			}
+		}
+	})
+}
+
+// c02TaskContext (R4): in every task function handed to syncutil.Go, and in
+// the functions it calls with its context, each further dispatch and each
+// cancellable wait uses a context derived from the task's own context.
+func c02TaskContext(c *Ctx) {
+	const R = "C02.R4.task-context"
+	c.Expect(R, 2)
+	ca := &c02CtxAnalysis{c: c, seen: map[*ssa.Function]bool{}}
+	for _, T := range c02GoTargets(c.P) {
+		var ctxParam *ssa.Parameter
+		for _, p := range T.Params {
+			if c02IsContextType(p.Type()) {
+				ctxParam = p
+				break
+			}
+		}
+		if ctxParam == nil {
+			c.Undecided(R, FnName(T)+"|context-parameter", T.Pos(), "the task function has no context parameter")
+			continue
+		}
+		ca.run(T, Aliases(ctxParam), 0)
 	}
 }
